@@ -284,7 +284,22 @@ func ruleCursorValidated(c *Ctx, r *R) {
 		}
 		k++
 		nonNil, inRange, genDiff := false, false, false
+		extraGuard := ""
 		for _, g := range guardsOf(b) {
+			// ... and under nothing else: a further condition (`c.curr.leaf() && …`) exempts some nodes from the comparison - a
+			// cursor parked on a separator is then not re-seeked when a delete or a rotation rewrites that slot in place
+			if v, _ := g.boolVal(); v != nil {
+				if call, isCall := v.(*ssa.Call); isCall {
+					if cal := staticCallee(&call.Call); cal != nil && cal.Signature.Recv() != nil && isNamedTypeDeep(cal.Signature.Recv().Type(), "container/tree", "node") {
+						extraGuard = calleeName(&call.Call)
+					}
+				}
+			}
+			if cf, ok := g.asCmp(); ok {
+				if strings.Contains(path(cf.x), ".children") || strings.Contains(path(cf.y), ".children") {
+					extraGuard = path(cf.x) + " " + cf.op.String() + " " + path(cf.y)
+				}
+			}
 			if cf, ok := g.asCmp(); ok {
 				xs, ys := path(cf.x), path(cf.y)
 				if strings.HasSuffix(xs, ".curr") && isNilConst(cf.y) && cf.op == token.NEQ {
@@ -300,6 +315,7 @@ func ruleCursorValidated(c *Ctx, r *R) {
 		}
 		r.ok(nonNil && inRange, "cursor.lost|slot-read-guarded#"+itoa(k), ia.Pos(), "lost() may compare c.k with c.curr.keys[c.i] only under c.curr != nil and c.i < c.curr.n: slots >= n hold zero keys that may equal c.k, and an unlinked node (n = 0) is recognised only this way")
 		_ = genDiff
+		r.ok(extraGuard == "", "cursor.lost|slot-read-for-every-node#"+itoa(k), ia.Pos(), "lost() compares c.k with the slot only under a test of the node's kind ("+extraGuard+"): slots of internal nodes are rewritten in place too (a deleted separator is replaced by its predecessor, a rotation replaces the parent's separator, a child's split shifts them) without n shrinking - a cursor parked there is not re-seeked and yields a key that is gone, with another key's value")
 	})
 	if k == 0 {
 		r.violated("cursor.lost|slot-read", lost.Pos(), "lost() must compare the remembered key with the slot it points at")
